@@ -172,11 +172,21 @@ def mk_label(spec):
         return tuple(mk_label(x) for x in spec[1])
     if k == "fset":
         return frozenset(mk_label(x) for x in spec[1])
+    if k == "eq":  # the same label in different but EQUAL (== and hash) guises: 1, 1.0, Fraction(1), Decimal(1), True
+        from decimal import Decimal
+        from fractions import Fraction
+
+        _EQ_COUNTER[0] += 1
+        forms = [int, float, Fraction, Decimal] + ([bool] if spec[1] in (0, 1) else [])
+        return forms[_EQ_COUNTER[0] % len(forms)](spec[1])
     raise ValueError(spec)
 
 
+_EQ_COUNTER = [0]
+
+
 FALSY = [["none"], ["bool", False], ["str", ""], ["tuple", []], ["bytes", ""], ["fset", []], ["float", 0.0], ["int", 0]]
-LABEL_FAMILIES = ["none", "none", "falsy", "falsy", "bigint", "tuple", "str", "fset", "float", "mixed", "mixed", "numstr"]
+LABEL_FAMILIES = ["none", "none", "falsy", "falsy", "bigint", "tuple", "str", "fset", "float", "mixed", "mixed", "numstr", "eqtypes", "eqtypes"]
 
 
 def gen_label_specs(rng, n, family=None):
@@ -194,6 +204,8 @@ def gen_label_specs(rng, n, family=None):
             return ["fset", [["int", k], ["str", "x"]]]
         if fam == "float":
             return ["float", k + 0.5]
+        if fam == "eqtypes":
+            return ["eq", k]
         if fam == "numstr":  # "1" next to 1: different labels
             return ["str", str(k)] if k % 2 else ["int", k]
         return ["int", k + 1]
@@ -227,6 +239,43 @@ MCF_SHAPES = [None, None, None, {"adj": "tuple"}, {"arc": "list"}, {"map": "defa
               {"cost_float": True}, {"cost_float": True, "adj": "tuple"}]
 
 
+def special_value(sp, cap, c):
+    """Class X.  The stored (integer) instance is what oracle and model see; the call gets the float extreme that must behave the same:
+    cap_inf (stored: a capacity no flow can exhaust), cost_inf / cost_nan with the real capacity sp[1] (stored: capacity 0 - an arc that
+    can never be relaxed), cost_negzero / cap_negzero (stored 0)."""
+    if sp[0] == "cap_inf":
+        return float("inf"), c
+    if sp[0] == "cost_inf":
+        return sp[1], float("inf")
+    if sp[0] == "cost_nan":
+        return sp[1], float("nan")
+    if sp[0] == "cost_negzero":
+        return cap, -0.0
+    if sp[0] == "cap_negzero":
+        return -0.0, c
+    raise ValueError(sp)
+
+
+def xify_arcs(rng, arcs, total, allow_cost_special=True, nonfinite=False):
+    """Pick float extremes for some arcs of an index-form arc list; returns (stored arcs, {ordinal: special})."""
+    arcs = [list(a) for a in arcs]
+    special = {}
+    big = total + sum(a[2] for a in arcs) + 1
+    for k, a in enumerate(arcs):
+        r = rng.random()
+        if r < 0.15 and nonfinite:
+            special[str(k)] = ["cap_inf"]
+            a[2] = big
+        elif r < 0.3 and nonfinite and allow_cost_special and a[3] >= 0:
+            special[str(k)] = [rng.choice(["cost_inf", "cost_nan"]), a[2]]
+            a[2], a[3] = 0, 0
+        elif r < 0.4 and a[3] == 0:
+            special[str(k)] = ["cost_negzero"]
+        elif r < 0.45 and a[2] == 0:
+            special[str(k)] = ["cap_negzero"]
+    return [tuple(a) for a in arcs], special
+
+
 def materialise(inst):
     """The Python objects handed to min_cost_flow: (graph, source, sink, {label object: raw id}).  Every occurrence of a
     label is a freshly built object; containers / number formats follow inst["shape"]."""
@@ -236,7 +285,19 @@ def materialise(inst):
     arc_t = list if sh.get("arc") == "list" else tuple
     adj_t = tuple if sh.get("adj") == "tuple" else list
     num = float if sh.get("cost_float") else (lambda c: c)
-    items = [(lab(k), adj_t(arc_t((lab(v), cap, num(c))) for v, cap, c in out)) for k, out in inst["graph"]]
+    capf = float if sh.get("cap_float") else (lambda c: c)
+    special = sh.get("special") or {}
+    ordinal = [0]
+
+    def arc(v, cap, c):
+        sp = special.get(str(ordinal[0]))
+        ordinal[0] += 1
+        cap, c = capf(cap), num(c)
+        if sp:
+            cap, c = special_value(sp, cap, c)
+        return arc_t((lab(v), cap, c))
+
+    items = [(lab(k), adj_t(arc(v, cap, c) for v, cap, c in out)) for k, out in inst["graph"]]
     if sh.get("map") == "defaultdict":
         g = defaultdict(list)
         g.update(items)
@@ -250,6 +311,10 @@ def materialise(inst):
         for v, _, _ in out:
             back[lab(v)] = v
     return g, lab(inst["source"]), lab(inst["sink"]), back
+
+
+def mcf_demand(inst):
+    return float(inst["demand"]) if (inst.get("shape") or {}).get("demand_float") else inst["demand"]
 
 
 def gen_mcf_core(rng, big=False, n=None, max_arcs=None):
@@ -603,19 +668,25 @@ def alias_sequences(ctx, mcf_insts, ns_insts, count):
     from solvor.flow import max_flow, min_cost_flow
     from solvor.network_simplex import network_simplex
 
+    def norm(res, back):  # labels of equal-but-distinct guise (1, 1.0, Decimal(1)) compare by their raw id
+        out = _pack(res)
+        if isinstance(out["flows"], list):
+            out["flows"] = [[back[u], back[v], f] for u, v, f in out["flows"]]
+        return repr(out)
+
     def fresh_mcf(inst, d):
-        g, s, t, _ = materialise(inst)
-        return repr(_pack(min_cost_flow(g, s, t, d)))
+        g, s, t, back = materialise(inst)
+        return norm(min_cost_flow(g, s, t, d), back)
 
     def mcf_seq(inst, other):
         d1 = inst["demand"]
         d2 = max(0, d1 + ctx.rng.choice([-1, 1, 2]))
         want = {d: fresh_mcf(inst, d) for d in (d1, d2)}
         for order in ((d1, d2, d1), (d2, d1, d2)):
-            g, s, t, _ = materialise(inst)
+            g, s, t, back = materialise(inst)
             before = _snap_graph(g)
             for k, d in enumerate(order):
-                got = repr(_pack(min_cost_flow(g, s, t, d)))
+                got = norm(min_cost_flow(g, s, t, d), back)
                 if got != want[d]:
                     return f"call {k + 1} of the sequence demands {order} on one shared graph returned {got}, a fresh call returns {want[d]}"
                 if k == 0:
@@ -647,8 +718,8 @@ def alias_sequences(ctx, mcf_insts, ns_insts, count):
                 return "the shared arcs / supplies were modified"
         return None
 
-    small_m = [i for i in mcf_insts if len(i["graph"]) <= 12 and i["demand"] < 10 ** 6][:4 * count]
-    small_n = [i for i in ns_insts if i["n"] <= 12 and i.get("max_iter") is None][:4 * count]
+    small_m = [i for i in mcf_insts if len(i["graph"]) <= 12 and i["demand"] < 10 ** 6 and not i.get("observe")][:4 * count]
+    small_n = [i for i in ns_insts if i["n"] <= 12 and i.get("max_iter") is None and not i.get("observe")][:4 * count]
     for pool, fn, kind in ((small_m, mcf_seq, "mcf"), (small_n, ns_seq, "ns")):
         if len(pool) < 2:
             continue
@@ -660,6 +731,275 @@ def alias_sequences(ctx, mcf_insts, ns_insts, count):
             bad = r[1] if r[0] == "ok" else f"call sequence did not complete: {r}"
             if bad:
                 ctx.violation(f"{'min_cost_flow' if kind == 'mcf' else 'network_simplex'} (call sequence): {bad}", {"kind": kind, **inst, "sequence": True})
+                break
+
+
+# ---------------------------------------------------------------- class X: float extremes the API does not reject
+def gen_mcf_x(rng):
+    """Integral floats in every numeric argument, negative zero, infinite capacities ("unlimited"), infinite / NaN costs ("forbidden
+    arc").  Stored instance = the integer instance that must behave identically (see special_value)."""
+    core = gen_mcf_core(rng, False)
+    core = dict(core, tag="floatx/" + core["tag"])
+    inst = assemble_mcf(rng, core, labels="legacy" if rng.random() < 0.7 else rng.choice(LABEL_FAMILIES))
+    flat = [(k, v, cap, c) for k, out in inst["graph"] for v, cap, c in out]  # the order in which materialise() numbers the arcs
+    observe = rng.random() < 0.25  # non-finite data (inf capacity, inf / NaN cost): outside the property, observation only
+    arcs, special = xify_arcs(rng, flat, core["demand"], nonfinite=observe)
+    observe = any(v[0] in ("cap_inf", "cost_inf", "cost_nan") for v in special.values())
+    if observe:
+        inst.update({"observe": True, "no_model": True})
+    it = iter(arcs)
+    inst["graph"] = [[k, [list(next(it)[1:]) for _ in out]] for k, out in inst["graph"]]
+    shape = {"special": special}
+    for k in ("cap_float", "cost_float", "demand_float"):
+        if rng.random() < 0.4:
+            shape[k] = True
+    if rng.random() < 0.3:
+        shape["adj"] = "tuple"
+    inst["shape"] = shape
+    return inst
+
+
+def gen_ns_x(rng):
+    while True:
+        inst = gen_ns(rng)
+        if inst["arcs"]:
+            break
+    arcs, special = xify_arcs(rng, [tuple(a) for a in inst["arcs"]], sum(x for x in inst["supplies"] if x > 0), allow_cost_special=False,
+                              nonfinite=rng.random() < 0.25)
+    shape = {"special": special}
+    if any(v[0] == "cap_inf" for v in special.values()):
+        inst = dict(inst, observe=True, no_model=True)
+    for k in ("cap_float", "cost_float", "sup_float", "sup_negzero", "max_iter_float"):
+        if rng.random() < 0.4:
+            shape[k] = True
+    return dict(inst, arcs=[list(a) for a in arcs], shape=shape, tag="floatx/" + inst["tag"])
+
+
+def gen_assign_x(rng):
+    n = rng.choice([1, 2, 3, 3, 4])
+    m = rng.choice([n, n, n + 1, max(1, n - 1)])
+    mat = [[rng.randint(0, 9) for _ in range(m)] for _ in range(n)]
+    k = min(n, m)
+    rows, cols = rng.sample(range(n), k), rng.sample(range(m), k)
+    keep = set(zip(rows, cols))  # a matching of min(n, m) finite entries always exists
+    special = {}
+    nonfinite = rng.random() < 0.25
+    for i in range(n):
+        for j in range(m):
+            r = rng.random()
+            if nonfinite and (i, j) not in keep and r < 0.25:
+                special[f"{i},{j}"] = rng.choice(["inf", "nan"])
+                mat[i][j] = 10 ** 6  # stored: dearer than any matching of finite entries
+            elif mat[i][j] == 0 and r < 0.5:
+                special[f"{i},{j}"] = "negzero"
+    shape = {"special": special, "float": rng.random() < 0.5}
+    if rng.random() < 0.3:
+        shape["rows"] = "tuple"
+    obs = any(v != "negzero" for v in special.values())
+    return {"matrix": mat, "shape": shape, "tag": "floatx", **({"no_model": True, "observe": True} if obs else {})}
+
+
+def gen_ns_beyond(rng):
+    """network_simplex on integer costs beyond its float-exact zone (potentials are floats by design): observation only."""
+    while True:
+        n, arcs, sup = _ns_base(rng)
+        arcs2, sup2, _ = magnify(rng, n, arcs, sup, rng.choice([2 ** 50, 2 ** 53 + 1, 2 ** 60, 10 ** 18]), "shift")
+        if not ns_exact_zone(n, arcs2):
+            return {"n": n, "arcs": [list(a) for a in arcs2], "supplies": sup2, "max_iter": None, "tag": "beyond-float-zone", "observe": True,
+                    "no_model": True, "oracle": "cert"}
+
+
+# ---------------------------------------------------------------- class W: work volume (answers by construction)
+def build_heavy(recipe):
+    """Instances that MAXIMISE the iteration count of one internal loop at moderate input size, rebuilt from a small recipe
+    {"family", "size", "seed"} (so replay files stay small).  Returns (kind, instance).
+      mcf_rev_chain : chain 0 -> 1 -> ... -> N listed against the path direction (one Bellman-Ford sweep per hop: N sweeps, and a path of N
+                      edges) plus a direct arc that is ten times dearer; all capacities 2, demand 2 -> 2 * sum(chain costs).
+      mcf_parallel  : K parallel unit arcs between two nodes (one sweep per run, one augmentation per unit): demand close to K ->
+                      sum of the `demand` smallest costs after `demand` augmentations.
+      mcf_fwd_chain : chain listed along the path (two sweeps), N path edges reconstructed / augmented.
+      ns_two_chains : a long chain A (supply 1 at its head, demand 1 at its end), a short chain B, and one arc from the head of B to the
+                      end of A that no feasible flow can use: about N pivots, tree walks of N steps and, when that arc enters
+                      (degenerate), a re-hang of the whole subtree A.  The feasible flow is unique -> sum of all chain costs.
+      ns_chain / ns_parallel : N-1 resp. K/2 pivots."""
+    import random as _random
+
+    rng = _random.Random(recipe["seed"])
+    fam, N = recipe["family"], recipe["size"]
+    common = {"oracle": "expect", "no_model": True, "once": True, "timeout": recipe.get("timeout", 150), "recipe": recipe, "tag": f"work/{fam}/{N}"}
+    if fam in ("mcf_rev_chain", "mcf_fwd_chain"):
+        costs = [rng.randint(1, 3) for _ in range(N)]
+        keys = list(range(N))
+        if fam == "mcf_rev_chain":
+            keys.reverse()
+        graph = [[i, [[i + 1, 2, costs[i]]]] for i in keys]
+        direct = [N, 2, 10 * sum(costs)]
+        for entry in graph:
+            if entry[0] == 0:
+                entry[1].insert(rng.randrange(2), direct)
+        return "mcf", {"graph": graph, "source": 0, "sink": N, "demand": 2, "expect_opt": 2 * sum(costs), **common}
+    if fam == "mcf_parallel":
+        costs = [rng.randint(1, 50) for _ in range(N)]
+        d = N - rng.randint(0, 60)
+        return "mcf", {"graph": [["s", [["t", 1, c] for c in costs]], ["t", []]], "source": "s", "sink": "t", "demand": d,
+                       "expect_opt": sum(sorted(costs)[:d]), **common}
+    if fam == "ns_two_chains":
+        h, n = N, N + 5
+        costs = [rng.randint(1, 3) for _ in range(n)]
+        arcs = [[i, i + 1, 3, costs[i]] for i in range(h - 1)] + [[i, i + 1, 3, costs[i]] for i in range(h, n - 1)]
+        arcs.insert(rng.choice([0, len(arcs)]), [h, h - 1, 3, 1])
+        sup = [0] * n
+        sup[0], sup[h - 1], sup[h], sup[n - 1] = 1, -1, 1, -1
+        return "ns", {"n": n, "arcs": arcs, "supplies": sup, "max_iter": None,
+                      "expect_opt": sum(costs[:h - 1]) + sum(costs[h:n - 1]), **common}
+    if fam == "ns_chain":
+        costs = [rng.randint(1, 3) for _ in range(N - 1)]
+        arcs = [[i, i + 1, 3, costs[i]] for i in range(N - 1)]
+        rng.shuffle(arcs)
+        sup = [0] * N
+        sup[0], sup[N - 1] = 2, -2
+        return "ns", {"n": N, "arcs": arcs, "supplies": sup, "max_iter": None, "expect_opt": 2 * sum(costs), **common}
+    if fam == "ns_parallel":
+        costs = [rng.randint(1, 50) for _ in range(N)]
+        d = N // 2
+        return "ns", {"n": 2, "arcs": [[0, 1, 1, c] for c in costs], "supplies": [d, -d], "max_iter": None,
+                      "expect_opt": sum(sorted(costs)[:d]), **common}
+    raise ValueError(recipe)
+
+
+def heavy_worker(recipe):
+    """Runs in a forked worker: implementation + by-construction judgement + (where affordable) the instrumented port's loop counts."""
+    kind, inst = build_heavy(recipe)
+    c = mcf_case(inst) if kind == "mcf" else ns_case(inst)
+    out = c["out"]
+    work = {}
+    if out is not None and recipe.get("port", True):
+        if kind == "mcf":
+            work = EV.mcf_ref(c["n"], c["arcs"], c["s"], c["t"], c["d"], limit=10 ** 9)["work"]
+        else:
+            work = EV.ns_ref(c["n"], c["arcs"], c["supplies"], DEFAULT_MAX_ITER, limit=10 ** 9)["work"]
+    elif out is not None:
+        work = {"mcf_augmentations" if kind == "mcf" else "ns_pivots": out["iterations"]}
+    return {"kind": kind, "recipe": recipe, "bad": c["bad"], "status": out["status"] if out else "no-result",
+            "impl": None if out is None else {k: (out[k] if k != "flows" else _short(out[k] or [], 6)) for k in ("status", "flows", "objective", "iterations")},
+            "optimum": inst["expect_opt"], "work": work}
+
+
+def heavy_recipes(rng, big):
+    rs = [{"family": "mcf_rev_chain", "size": rng.randint(4100, 4300)}, {"family": "mcf_parallel", "size": rng.randint(4160, 4400), "port": False},
+          {"family": "mcf_fwd_chain", "size": 100_003}, {"family": "ns_two_chains", "size": rng.randint(4100, 4300)},
+          {"family": "mcf_rev_chain", "size": 130}, {"family": "mcf_parallel", "size": 1030}, {"family": "ns_two_chains", "size": 1030},
+          {"family": "ns_parallel", "size": 2060}]
+    if big:
+        rs += [{"family": "mcf_rev_chain", "size": 10_050, "port": False, "timeout": 600}, {"family": "mcf_parallel", "size": 10_100, "port": False, "timeout": 600},
+               {"family": "mcf_fwd_chain", "size": 2 ** 20 + 2, "port": False, "timeout": 600}, {"family": "ns_chain", "size": 10_010, "port": False, "timeout": 900},
+               {"family": "ns_parallel", "size": 8400, "port": False, "timeout": 600}, {"family": "ns_two_chains", "size": 2 ** 13 + 10, "port": False, "timeout": 900}]
+    for r in rs:
+        r["seed"] = rng.randrange(10 ** 9)
+    return rs
+
+
+# ---------------------------------------------------------------- class A2: in-place edits between calls
+def edit_sequences(ctx, mcf_insts, ns_insts, as_insts, count):
+    """f(x); MUTATE x in place (replace an arc / matrix entry / supply keeping ids and lengths, append or delete an arc, add a key);
+    f(x) again, and the other public functions of the module on the same object; every answer must equal the answer of a fresh call on a
+    deep copy of the edited input, and the edited-input answer is judged by the oracle like any other case."""
+    from solvor.flow import max_flow, min_cost_flow, solve_assignment
+    from solvor.network_simplex import network_simplex
+
+    rng = ctx.rng
+
+    def mcf_edit(inst):
+        inst = dict(inst, shape={"adj": "list", "arc": rng.choice(["tuple", "list"])})
+        g, s, t, back = materialise(inst)
+        d = inst["demand"]
+        first = repr(_pack(min_cost_flow(g, s, t, d)))
+        max_flow(g, s, t)
+        keys = [k for k in g if g[k]]
+        nodes = list(back)
+        kind = rng.choice(["replace_cost", "replace_cap", "append", "delete", "newkey", "replace_cost"])
+        if kind in ("replace_cost", "replace_cap", "delete") and not keys:
+            kind = "append"
+        if kind == "replace_cost":
+            k = rng.choice(keys); i = rng.randrange(len(g[k])); a = g[k][i]
+            g[k][i] = type(a)((a[0], a[1], a[2] + rng.choice([1, 2, 5])))      # dearer: no negative cycle appears
+        elif kind == "replace_cap":
+            k = rng.choice(keys); i = rng.randrange(len(g[k])); a = g[k][i]
+            g[k][i] = type(a)((a[0], max(0, a[1] + rng.choice([-1, 1, 2])), a[2]))
+        elif kind == "append":
+            k = rng.choice(list(g)) if g else s
+            g.setdefault(k, []).append((rng.choice(nodes), rng.choice([1, 2]), rng.choice([20, 30])))  # dear arc: cycles stay non-negative
+        elif kind == "delete":
+            k = rng.choice(keys); g[k].pop(rng.randrange(len(g[k])))
+        else:
+            fresh_label = ("new", len(g))
+            g[fresh_label] = [(t, 1, 25)]
+            g.setdefault(s, []).append((fresh_label, 1, 25))
+        again = repr(_pack(min_cost_flow(g, s, t, d)))
+        mf_again = max_flow(g, s, t)
+        g2 = copy.deepcopy(g)
+        fresh = repr(_pack(min_cost_flow(g2, s, t, d)))
+        mf_fresh = max_flow(copy.deepcopy(g), s, t)
+        if again != fresh:
+            return f"after the in-place edit `{kind}` (first answer {first}) min_cost_flow on the SAME graph object returned {again}; on a deep copy of the edited graph it returns {fresh}"
+        if (mf_again.objective, mf_again.solution) != (mf_fresh.objective, mf_fresh.solution):
+            return f"after the in-place edit `{kind}` max_flow on the same object returned {mf_again.objective}, on a deep copy {mf_fresh.objective}"
+        return None
+
+    def ns_edit(inst):
+        arcs, sup = ns_args(dict(inst, shape={"arc": rng.choice(["tuple", "list"])}))
+        n = inst["n"]
+        first = repr(_pack(network_simplex(n, arcs, sup)))
+        kind = rng.choice(["replace_cost", "replace_cap", "supply", "append", "delete"])
+        if kind == "replace_cost":
+            i = rng.randrange(len(arcs)); a = arcs[i]
+            arcs[i] = type(a)((a[0], a[1], a[2], a[3] + rng.choice([1, 2, 5])))
+        elif kind == "replace_cap":
+            i = rng.randrange(len(arcs)); a = arcs[i]
+            arcs[i] = type(a)((a[0], a[1], max(0, a[2] + rng.choice([-1, 1, 2])), a[3]))
+        elif kind == "supply" and n >= 2:
+            a, b = rng.sample(range(n), 2)
+            sup[a] += 1
+            sup[b] -= 1
+        elif kind == "append" and n >= 2:
+            a, b = rng.sample(range(n), 2)
+            arcs.append((a, b, 2, 30))
+        elif len(arcs) > 1:
+            arcs.pop(rng.randrange(len(arcs)))
+        again = repr(_pack(network_simplex(n, arcs, sup)))
+        fresh = repr(_pack(network_simplex(n, *copy.deepcopy((arcs, sup)))))
+        if again != fresh:
+            return f"after the in-place edit `{kind}` (first answer {first}) network_simplex on the SAME arcs / supplies objects returned {again}; on a deep copy it returns {fresh}"
+        edited = {"n": n, "arcs": [list(a) for a in arcs], "supplies": list(sup), "max_iter": None}
+        c = ns_case(edited)
+        return None if not c["bad"] else f"edited instance {edited}: {c['bad']}"
+
+    def as_edit(inst):
+        mat = [list(r) for r in inst["matrix"]]
+        first = repr(solve_assignment(mat))
+        i = rng.randrange(len(mat)); j = rng.randrange(len(mat[0]))
+        mat[i][j] += rng.choice([-3, 3, 7])
+        again = solve_assignment(mat)
+        fresh = solve_assignment(copy.deepcopy(mat))
+        if (again.solution, again.objective, again.status) != (fresh.solution, fresh.objective, fresh.status):
+            return f"after mat[{i}][{j}] was changed in place (first answer {first}) solve_assignment returned {again.solution} cost {again.objective}; on a deep copy {fresh.solution} cost {fresh.objective}"
+        return judge_assign(mat, {"status": again.status.name, "assignment": list(again.solution), "objective": again.objective})
+
+    pools = ((
+        [i for i in mcf_insts if len(i["graph"]) <= 12 and i["demand"] < 10 ** 6 and not (i.get("shape") or {}).get("special") and not i.get("observe")][:300], mcf_edit, "mcf", "min_cost_flow"),
+        ([i for i in ns_insts if i["n"] <= 12 and i["arcs"] and not i.get("shape") and i.get("max_iter") is None and i.get("oracle") is None][:300], ns_edit, "ns", "network_simplex"),
+        ([i for i in as_insts if i["matrix"] and i["matrix"][0] and len(i["matrix"]) <= 5 and not i.get("shape") and "expect_opt" not in i and "magnitude" not in i.get("tag", "")][:200], as_edit, "assign", "solve_assignment"))
+    for pool, fn, kind, name in pools:
+        if not pool:
+            continue
+        for _ in range(count):
+            inst = rng.choice(pool)
+            r = guarded(fn, inst, timeout=10)
+            ctx.evaluations += 1
+            ctx.count("edit_sequences", kind)
+            bad = r[1] if r[0] == "ok" else f"edit sequence did not complete: {r}"
+            if bad:
+                ctx.violation(f"{name} (in-place edit between calls): {bad}", {"kind": kind, **inst, "sequence": "edit"})
                 break
 
 
@@ -721,7 +1061,7 @@ def _pack(res):
 
 
 def _snap_graph(g):
-    return (type(g).__name__, [(k, type(v).__name__, [(type(a).__name__, tuple(a)) for a in v]) for k, v in g.items()])
+    return repr((type(g).__name__, [(k, type(v).__name__, [(type(a).__name__, tuple(a)) for a in v]) for k, v in g.items()]))
 
 
 def run_mcf_impl(inst):
@@ -731,12 +1071,12 @@ def run_mcf_impl(inst):
 
     g, s, t, back = materialise(inst)
     before = _snap_graph(g)
-    out = _pack(min_cost_flow(g, s, t, inst["demand"]))
+    out = _pack(min_cost_flow(g, s, t, mcf_demand(inst)))
     side = None
     if _snap_graph(g) != before:
         side = "the caller's graph was modified"
-    else:
-        out2 = _pack(min_cost_flow(g, s, t, inst["demand"]))
+    elif not inst.get("once"):
+        out2 = _pack(min_cost_flow(g, s, t, mcf_demand(inst)))
         if repr(out2) != repr(out):
             side = f"a second call on the same objects returned {out2}"
     if isinstance(out["flows"], list):
@@ -753,10 +1093,19 @@ def ns_args(inst):
     sh = inst.get("shape") or {}
     arc_t = list if sh.get("arc") == "list" else tuple
     cf = float if sh.get("cost_float") else (lambda c: c)
-    arcs = [arc_t((a[0], a[1], a[2], cf(a[3]))) for a in inst["arcs"]]
+    capf = float if sh.get("cap_float") else (lambda c: c)
+    special = sh.get("special") or {}
+    arcs = []
+    for k, a in enumerate(inst["arcs"]):
+        cap, c = capf(a[2]), cf(a[3])
+        if str(k) in special:
+            cap, c = special_value(special[str(k)], cap, c)
+        arcs.append(arc_t((a[0], a[1], cap, c)))
     if sh.get("arcs") == "tuple":
         arcs = tuple(arcs)
     sup = [float(x) for x in inst["supplies"]] if sh.get("sup_float") else list(inst["supplies"])
+    if sh.get("sup_negzero"):
+        sup = [-0.0 if x == 0 else x for x in sup]
     if sh.get("sup") == "tuple":
         sup = tuple(sup)
     return arcs, sup
@@ -766,13 +1115,15 @@ def run_ns_impl(inst):
     from solvor.network_simplex import network_simplex
 
     kw = {} if inst.get("max_iter") is None else {"max_iter": inst["max_iter"]}
+    if kw and (inst.get("shape") or {}).get("max_iter_float"):
+        kw = {"max_iter": float(inst["max_iter"])}
     arcs, sup = ns_args(inst)
     before = copy.deepcopy((arcs, sup))
     out = _pack(network_simplex(inst["n"], arcs, sup, **kw))
     side = None
     if (arcs, sup) != before or repr((arcs, sup)) != repr(before):
         side = "the caller's arcs / supplies were modified"
-    else:
+    elif not inst.get("once"):
         out2 = _pack(network_simplex(inst["n"], arcs, sup, **kw))
         if repr(out2) != repr(out):
             side = f"a second call on the same objects returned {out2}"
@@ -789,7 +1140,9 @@ def run_assign_impl(inst):
     sh = inst.get("shape") or {}
     num = float if sh.get("float") else (lambda c: c)
     row_t = tuple if sh.get("rows") == "tuple" else list
-    mat = [row_t(num(x) for x in r) for r in inst["matrix"]]
+    sp = sh.get("special") or {}
+    xv = {"inf": float("inf"), "nan": float("nan"), "negzero": -0.0}
+    mat = [row_t(xv[sp[f"{i},{j}"]] if f"{i},{j}" in sp else num(x) for j, x in enumerate(r)) for i, r in enumerate(inst["matrix"])]
     if sh.get("mat") == "tuple":
         mat = tuple(mat)
     before = copy.deepcopy(mat)
@@ -799,7 +1152,7 @@ def run_assign_impl(inst):
 
     out = pack(solve_assignment(mat))
     side = None
-    if mat != before or repr(mat) != repr(before):
+    if repr(mat) != repr(before):
         side = "the caller's cost matrix was modified"
     else:
         out2 = pack(solve_assignment(mat))
@@ -993,7 +1346,7 @@ def judge(n, arcs, supplies, out, optimum, allow_max_iter=False):
     if st == "OPTIMAL":
         if optimum != CERT and cost != optimum:
             return f"objective {cost} but the minimum is {optimum}"
-        if potentials(n, arcs, f) is None:
+        if (optimum == CERT or n * len(arcs) <= 2_000_000) and potentials(n, arcs, f) is None:
             return f"objective {cost} is not the minimum: the residual graph of the returned flow has a negative cycle"
     elif optimum != CERT and cost < optimum:
         return f"objective {cost} below the minimum {optimum}"
@@ -1131,7 +1484,7 @@ def mcf_case(inst):
     """Run one min_cost_flow instance: implementation, oracle verdict, Coq case strings."""
     n, arcs, num = relabel(inst)
     s, t, d = num[inst["source"]], num[inst["sink"]], inst["demand"]
-    res = guarded(run_mcf_impl, inst, timeout=5)
+    res = guarded(run_mcf_impl, inst, timeout=inst.get("timeout", 5))
     out = None
     bad = None
     if res[0] != "ok":
@@ -1181,7 +1534,7 @@ def load_corpus():
 
 def ns_case(inst):
     n, arcs, sup = inst["n"], [tuple(a) for a in inst["arcs"]], list(inst["supplies"])
-    res = guarded(run_ns_impl, inst, timeout=5)
+    res = guarded(run_ns_impl, inst, timeout=inst.get("timeout", 5))
     out, bad = None, None
     if res[0] != "ok":
         bad = f"network_simplex did not return a result: {res}"
@@ -1253,6 +1606,48 @@ def certificate_case(n, arcs, supplies, out):
     return None
 
 
+class _CoqJob:
+    """ctx.coq_check is synchronous; the six batches of this module are independent, so each runs in its own thread on a private
+    stand-in for the counters coq_check touches (merged into ctx afterwards; if core.py ever needs more than these attributes the batch
+    simply runs on ctx itself, sequentially)."""
+
+    def __init__(self, ctx, tag, typ, chk, terms, shard):
+        import threading
+
+        self.ctx, self.args, self.failing, self.error = ctx, (tag, IMPORTS, typ, chk, terms), None, None
+        self.shard = shard
+        self.casedir, self.checker_cmds, self.obligations, self.discharged, self.internal_errors = ctx.casedir, [], 0, 0, []
+        self.thread = threading.Thread(target=self._run)
+        self.thread.start()
+
+    def _run(self):
+        try:
+            self.failing = Ctx.coq_check(self, *self.args, shard=self.shard)
+        except AttributeError as e:
+            self.error = e
+
+    def result(self):
+        self.thread.join()
+        if self.error is not None:
+            return self.ctx.coq_check(*self.args, shard=self.shard)
+        c = self.ctx
+        c.checker_cmds += self.checker_cmds
+        c.obligations += self.obligations
+        c.discharged += self.discharged
+        c.internal_errors += self.internal_errors
+        return self.failing
+
+
+def observed(ctx, name, c):
+    """Observation-only cases (non-finite data, network_simplex costs beyond its float-exact zone): outside the property by the
+    coordinator's decision; whatever happens is counted, never a violation."""
+    if c["raw"] is not None:
+        what = "hang (cut by the guard)" if c["raw"][0] == "hang" else f"raised {c['raw'][1]}"
+    else:
+        what = ("would pass" if not c["bad"] else "would fail") + f" ({c['out']['status']})"
+    ctx.count("observation_only", f"{name}: {what}")
+
+
 def ns_exact_zone(n, arcs):
     """network_simplex keeps potentials as floats of magnitude big-M = sum|cost| * n + 1: integers stay exact below 2^53."""
     return (sum(abs(a[3]) for a in arcs) * n + 1) * 4 < 2 ** 53
@@ -1273,6 +1668,12 @@ def run(ctx: Ctx):
                 "assignments, max_iter sweeps, call sequences on shared objects, event-directed search (29 events) + event corpus. non-trivial = min_cost_flow run with >= 2 augmentations or a multi-arc pair or a "
                 "negative arc or INFEASIBLE after >= 1 augmentation / network_simplex run with >= 2 iterations / assignment with "
                 "n, m >= 2; distinct = canonical JSON of the instance")
+    # class W: the heavy work-volume instances run in forked workers while the proof steps compile
+    import multiprocessing as _mp
+    recipes = heavy_recipes(ctx.rng, ctx.tier == "thorough")
+    pool = _mp.get_context("fork").Pool(min(6, len(recipes)))
+    heavy_async = [pool.apply_async(heavy_worker, (r,)) for r in recipes]
+    pool.close()
     ctx.proof_step(["C09"])
     if (COQ / "Props" / "C09_deep.v").exists(): ctx.proof_step(["C09"], props_file="Props/C09_deep.v")
     if (COQ / "Props" / "C09_deep2.v").exists(): ctx.proof_step(["C09"], props_file="Props/C09_deep2.v")
@@ -1291,22 +1692,8 @@ def run(ctx: Ctx):
     n_as = ctx.budget(120, 1500)
 
     corpus = load_corpus()
-    # known findings with an executable class: "C09-ns-float-potentials" = network_simplex on integer costs outside ns_exact_zone (the
-    # generators stay inside that zone).  Its witnesses (corpus kind "ns_known") are replayed while an OPEN entry of that id exists.
-    open_ids = {f.get("id") for f in ctx.open_findings()}
-    for o in corpus:
-        if o.get("kind") == "ns_known" and o.get("finding") in open_ids:
-            c = ns_case({k: o[k] for k in INST_KEYS if k in o} | {"oracle": "expect", "expect_opt": o["expect_opt"]})
-            ctx.evaluations += 1
-            if c["bad"] and not ns_exact_zone(c["n"], c["arcs"]):
-                ctx.known_hit(o["finding"], f"network_simplex({o['n']}, {o['arcs']}, {o['supplies']}): {c['bad']}")
-            elif c["bad"]:
-                ctx.violation(f"network_simplex: {c['bad']}", {"kind": "ns", **o})
-            else:
-                ctx.notes.append(f"witness of open finding {o['finding']} no longer reproduces")
     for fnd in ctx.open_findings():
-        if fnd.get("id") != "C09-ns-float-potentials":
-            ctx.notes.append(f"open known finding {fnd.get('id')} has no executable class predicate in this module: not excused")
+        ctx.notes.append(f"open known finding {fnd.get('id')} has no executable class predicate in this module: not excused")
     mcf_insts = [o for o in corpus if o.get("kind") == "mcf"] + fixed_mcf() + [gen_mcf(ctx.rng, big) for _ in range(n_mcf)]
     ns_insts = [o for o in corpus if o.get("kind") == "ns"] + fixed_ns() + [gen_ns(ctx.rng, big) for _ in range(n_ns)]
     as_insts = [o for o in corpus if o.get("kind") == "assign"] + fixed_assign() + [gen_assign(ctx.rng, big) for _ in range(n_as)]
@@ -1315,6 +1702,11 @@ def run(ctx: Ctx):
     mcf_insts += [gen_mcf_magnitude(ctx.rng) for _ in range(n_mag)]
     ns_insts += [gen_ns_magnitude(ctx.rng) for _ in range(3 * n_mag)]
     as_insts += [gen_assign_magnitude(ctx.rng) for _ in range(n_mag // 2)]
+    n_x = 50 if not big else 500
+    mcf_insts += [gen_mcf_x(ctx.rng) for _ in range(n_x)]
+    ns_insts += [gen_ns_x(ctx.rng) for _ in range(n_x)]
+    as_insts += [gen_assign_x(ctx.rng) for _ in range(n_x // 2)]
+    ns_insts += [gen_ns_beyond(ctx.rng) for _ in range(12 if not big else 100)]
     rng = ctx.rng
     mcf_insts += [large_mcf(rng, 17, "chain", o) for o in ("reverse", "zigzag", "shuffle", "forward")]
     mcf_insts += [large_mcf(rng, 65, "chain", "reverse"), large_mcf(rng, 65, "chain", "zigzag"), large_mcf(rng, 65, "chain2", "zigzag"),
@@ -1341,13 +1733,17 @@ def run(ctx: Ctx):
 
     # ------------------------------------------------------------------ min_cost_flow
     mcf_terms, mcf_meta = [], []
+    translated = 0
     hangs = {"mcf": 0, "ns": 0, "assign": 0}  # a solver that stopped returning costs 5 s per call: give up on it after a few
     for inst in mcf_insts:
         if hangs["mcf"] >= MAX_HANGS:
             break
         c = mcf_case(inst)
-        hangs["mcf"] += c["raw"] is not None and c["raw"][0] == "hang"
+        hangs["mcf"] += c["raw"] is not None and c["raw"][0] == "hang" and not inst.get("observe")
         ctx.evaluations += 1
+        if inst.get("observe"):
+            observed(ctx, "min_cost_flow", c)
+            continue
         out = c["out"]
         st = out["status"] if out else "no-result"
         ctx.count("mcf_status", st)
@@ -1366,6 +1762,8 @@ def run(ctx: Ctx):
             ref = EV.mcf_ref(c["n"], c["arcs"], c["s"], c["t"], c["d"])
             for e in ref["events"]:
                 ctx.count("event", e)
+            for k, v in ref.get("work", {}).items():
+                ctx.hist.setdefault("work_max", {})[k] = max(ctx.hist.get("work_max", {}).get(k, 0), v)
             if out and st in ("OPTIMAL", "INFEASIBLE"):
                 ctx.count("reference_port_agrees", (ref["status"], ref.get("iterations")) == (st, out["iterations"])
                           and (st != "OPTIMAL" or ref["objective"] == _int(out["objective"])))
@@ -1388,7 +1786,8 @@ def run(ctx: Ctx):
                 ns_inst["no_model"] = True
             r2 = guarded(run_ns_impl, ns_inst, timeout=5)
             ctx.evaluations += 1
-            if c["arcs"]:
+            if c["arcs"] and (translated < 150 or big or inst.get("oracle") or "event" in inst.get("tag", "")):
+                translated += 1
                 ns_insts.append(ns_inst)  # also through the network_simplex model / oracle / certificates
             if r2[0] != "ok":
                 hangs["ns"] += r2[0] == "hang"
@@ -1401,10 +1800,7 @@ def run(ctx: Ctx):
                     ctx.violation(f"min_cost_flow says {st} cost {out['objective']}, network_simplex says {o2['status']} cost {o2['objective']} "
                                   f"(exact optimum {c['optimum']})", {"kind": "mcf", **inst, "impl": out, "ns_impl": o2, "optimum": c["optimum"]})
     lap("mcf_runs")
-    failing = ctx.coq_check("mcf", IMPORTS, MCF_T, MCF_CHK, mcf_terms, shard=120)
-    lap("mcf_coq")
-    for i in failing:
-        disagreements.append(("mcf", mcf_meta[i]))
+    job_mcf = _CoqJob(ctx, "mcf", MCF_T, MCF_CHK, mcf_terms, 120)  # compiled in the background while the next solvers run
 
     # ------------------------------------------------------------------ network_simplex
     ns_terms, ns_meta = [], []
@@ -1412,8 +1808,11 @@ def run(ctx: Ctx):
         if hangs["ns"] >= MAX_HANGS:
             break
         c = ns_case(inst)
-        hangs["ns"] += c["raw"] is not None and c["raw"][0] == "hang"
+        hangs["ns"] += c["raw"] is not None and c["raw"][0] == "hang" and not inst.get("observe")
         ctx.evaluations += 1
+        if inst.get("observe"):
+            observed(ctx, "network_simplex", c)
+            continue
         out = c["out"]
         st = out["status"] if out else "no-result"
         ctx.count("ns_status", st)
@@ -1436,6 +1835,8 @@ def run(ctx: Ctx):
             ref = EV.ns_ref(c["n"], c["arcs"], c["supplies"], mi)
             for e in ref["events"]:
                 ctx.count("event", e)
+            for k, v in ref.get("work", {}).items():
+                ctx.hist.setdefault("work_max", {})[k] = max(ctx.hist.get("work_max", {}).get(k, 0), v)
             if out:
                 ctx.count("reference_port_agrees", (ref["status"], ref.get("iterations")) == (out["status"], out["iterations"]))
         ctx.count("oracle_kind", inst.get("oracle", "exact"))
@@ -1446,13 +1847,7 @@ def run(ctx: Ctx):
         if cc:
             (opt_cases if cc[0] == "opt" else cut_cases).append((cc[1], ("ns", inst, out)))
     lap("ns_runs")
-    if NS_MODEL:
-        failing = ctx.coq_check("ns", IMPORTS, NS_T, NS_CHK, ns_terms, shard=120)
-        lap("ns_coq")
-        for i in failing:
-            disagreements.append(("ns", ns_meta[i]))
-    else:
-        ctx.notes.append("network_simplex: no Gallina model yet - judged by the oracle and by the kernel-checked certificates only")
+    job_ns = _CoqJob(ctx, "ns", NS_T, NS_CHK, ns_terms, 120)
 
     # ------------------------------------------------------------------ solve_assignment
     as_terms, as_meta, asc_terms, asc_meta = [], [], [], []
@@ -1460,8 +1855,11 @@ def run(ctx: Ctx):
         if hangs["assign"] >= MAX_HANGS:
             break
         c = assign_case(inst)
-        hangs["assign"] += c["raw"] is not None and c["raw"][0] == "hang"
+        hangs["assign"] += c["raw"] is not None and c["raw"][0] == "hang" and not inst.get("observe")
         ctx.evaluations += 1
+        if inst.get("observe"):
+            observed(ctx, "solve_assignment", c)
+            continue
         out = c["out"]
         mat = inst["matrix"]
         ctx.count("assign_shape", f"{len(mat)}x{len(mat[0]) if mat else 0}")
@@ -1480,33 +1878,58 @@ def run(ctx: Ctx):
             asc_terms.append(tup(clist(mat, lambda r: clist(r, cz)), clist(out["assignment"], cz), cz(_int(out["objective"])), clist(pi, cz)))
             asc_meta.append(c)
     lap("assign_runs")
-    failing = ctx.coq_check("assign", IMPORTS, ASG_T, ASG_CHK, as_terms)
-    lap("assign_coq")
-    for i in failing:
-        disagreements.append(("assign", as_meta[i]))
-
+    job_as = _CoqJob(ctx, "assign", ASG_T, ASG_CHK, as_terms, 300)
     # ------------------------------------------------------------------ sound checkers on implementation outputs
+    job_opt = _CoqJob(ctx, "cert_opt", OPT_T, OPT_CHK, [t for t, _ in opt_cases], 120)
+    job_cut = _CoqJob(ctx, "cert_cut", CUT_T, CUT_CHK, [t for t, _ in cut_cases], 120)
+    job_asc = _CoqJob(ctx, "cert_assign", ASGC_T, ASGC_CHK, asc_terms, 300)
+    alias_sequences(ctx, mcf_insts, ns_insts, 40 if not big else 400)
+    edit_sequences(ctx, mcf_insts, ns_insts, as_insts, 60 if not big else 600)
+    lap("call_sequences")
+    for i in job_mcf.result():
+        disagreements.append(("mcf", mcf_meta[i]))
+    for i in job_ns.result():
+        disagreements.append(("ns", ns_meta[i]))
+    for i in job_as.result():
+        disagreements.append(("assign", as_meta[i]))
     cert_fail = []
-    for tag, typ, chk, cases in (("cert_opt", OPT_T, OPT_CHK, opt_cases), ("cert_cut", CUT_T, CUT_CHK, cut_cases)):
-        failing = ctx.coq_check(tag, IMPORTS, typ, chk, [t for t, _ in cases], shard=120)
+    for tag, job, cases in (("cert_opt", job_opt, opt_cases), ("cert_cut", job_cut, cut_cases)):
+        failing = job.result()
         ctx.count("kernel_checked_certificates", tag, len(cases) - len(failing))
         for i in failing:
             cert_fail.append((tag, cases[i][1]))
-    failing = ctx.coq_check("cert_assign", IMPORTS, ASGC_T, ASGC_CHK, asc_terms)
+    failing = job_asc.result()
     ctx.count("kernel_checked_certificates", "cert_assign", len(asc_terms) - len(failing))
     for i in failing:
         cert_fail.append(("cert_assign", ("assign", asc_meta[i]["inst"], asc_meta[i]["out"])))
-    lap("cert_coq")
-    alias_sequences(ctx, mcf_insts, ns_insts, 40 if not big else 400)
-    lap("call_sequences")
+    lap("coq_batches_wait")
+    work_max = ctx.hist.setdefault("work_max", {})
+    for r, h in zip(recipes, heavy_async):
+        try:
+            res = h.get(timeout=r.get("timeout", 150) + 60)
+        except Exception as e:  # noqa: BLE001
+            res = {"kind": "?", "recipe": r, "bad": f"worker did not finish: {type(e).__name__} {e}", "status": "no-result", "impl": None, "optimum": None, "work": {}}
+        ctx.evaluations += 1
+        ctx.count("work_family", f"{r['family']}/{r['size']}: {res['status']}")
+        for k, v in res["work"].items():
+            work_max[k] = max(work_max.get(k, 0), v)
+        if res["bad"]:
+            name = "min_cost_flow" if r["family"].startswith("mcf") else "network_simplex"
+            ctx.violation(f"{name} (work volume {r['family']} size {r['size']}): {res['bad']}",
+                          {"kind": "heavy", "recipe": r, "impl": res["impl"], "optimum": res["optimum"]})
+        else:
+            ctx.nontriv(("heavy", json.dumps(r, sort_keys=True)))
+    pool.terminate()
+    lap("work_volume_wait")
     ctx.notes.append("optimality / infeasibility of every implementation answer is re-checked inside coqc by McfSpec.optimal_check / "
                      "cut_check / AssignSpec.assignment_check (sound by McfCert theorems); the per-arc split of pooled flows, the "
                      "potentials and the cuts are untrusted witnesses computed by the harness")
     ctx.notes.append("outside the quantifier, not generated: negative-cost cycles of positive capacity (min_cost_flow does not return), "
                      "non-integer supplies (truncated by int()), source == sink (returns {} cost 0)")
-    ctx.notes.append("network_simplex magnitudes are generated only inside ns_exact_zone ((sum|cost| * n + 1) * 4 < 2^53): beyond it the float "
-                     "potentials round and the solver returns non-minimal costs on the unchanged code (candidate finding C09-ns-float-potentials, "
-                     "witness corpus/C09/k_ns-float-potentials.json); min_cost_flow / solve_assignment are exercised up to 10^18")
+    ctx.notes.append("observation only (outside the property, counted in `observation_only`, never a violation): inf capacities, inf / NaN costs "
+                     "or matrix entries, and network_simplex on integer costs beyond its float-exact zone (sum|cost| * n + 1) * 4 >= 2^53 (its "
+                     "potentials are floats by design; witness corpus/C09/o_ns-float-potentials.json).  Judged at any magnitude: min_cost_flow "
+                     "and solve_assignment on integers (exact), network_simplex inside the zone, -0.0 and integral floats in every numeric argument")
     ctx.notes.append("the instrumented reference ports (mincost_events) only steer generation and fill the `event` histogram; they are never an oracle")
     ctx.notes.append("costs and capacities are Python ints; network_simplex keeps potentials as floats holding integers < 2^53 "
                      "(its -1e-9 pricing tolerance then means `< 0`), modelled over Z")
@@ -1593,12 +2016,18 @@ def fixed_assign():
 
 
 # ====================================================================================== replay
-INST_KEYS = ("graph", "source", "sink", "demand", "labels", "shape", "oracle", "expect_opt", "exact_ok", "n", "arcs", "supplies", "max_iter",
+INST_KEYS = ("observe", "no_model", "graph", "source", "sink", "demand", "labels", "shape", "oracle", "expect_opt", "exact_ok", "n", "arcs", "supplies", "max_iter",
              "matrix", "expect_assignment", "tag")
 
 
 def replay(obj):
     kind = obj.get("kind")
+    if kind == "heavy":
+        res = heavy_worker(dict(obj["recipe"], port=False))
+        print("recipe:", obj["recipe"], "(instance: harness.props.C09.build_heavy(recipe))")
+        print("implementation:", res["impl"], "expected optimum (by construction):", res["optimum"])
+        print("oracle verdict:", res["bad"] or "ok")
+        return 1 if res["bad"] else 0
     if kind == "mcf":
         c = mcf_case({k: obj[k] for k in INST_KEYS if k in obj})
         print("implementation:", c["out"] or c["raw"])
